@@ -8,7 +8,7 @@ import tour
 import vcommon as vc
 
 SEVNAMES = ["trace", "debug", "info", "warn", "error", "fatal"]
-NS = {1: 3, 2: 3, 3: 3, 4: 1, 5: 2, 6: 1, 7: 2, 8: 1}
+NS = {1: 3, 2: 3, 3: 3, 4: 1, 5: 2, 6: 1, 7: 2, 8: 1, 9: 1}
 KTEXT = {"s": "s", "c": "c", "i": "1"}       # model item kind -> text the driver streams for it
 
 
@@ -169,7 +169,7 @@ def record(chk, exes, n):
     by_min = {m: [] for m in exes}
     for k in range(n):
         m = rng.choice(sorted(exes))
-        by_min[m].append(dict(fx=rng.randint(1, 8), steps=gen_program(rng, rng.randint(3, 30))))
+        by_min[m].append(dict(fx=rng.randint(1, 9), steps=gen_program(rng, rng.randint(3, 30))))
     execs, meta = [], []
     for m, cases in by_min.items():
         obs = vc.run_cases(exes[m], cases, chk.out, "record_min%d" % m, per_case_timeout=10)
@@ -231,7 +231,7 @@ def run(chk, replay_path):
     replay_model(chk, exes, "MC_Log_gate.cfg", "gate")
     replay_model(chk, exes, "MC_Log_stmt_%s.cfg" % chk.tier, "stmt")
     chk.exhaustive = True
-    chk.bounds["gate model"] = "6 compile-time minima x 8 filter expressions x all thresholds 0..5 of three threshold filters x 6 severities x tag"
+    chk.bounds["gate model"] = "6 compile-time minima x 9 filter expressions (8 over thresholds, one with a user-written tag filter) x all thresholds 0..5 of three threshold filters x 6 severities x tag"
     chk.bounds["statement model"] = "named stream objects (2 alive at once) and expression statements, up to 2 items over string/integer/callable"
     record(chk, exes, 1500 if chk.tier == "quick" else 20000)
     chk.assumptions += ["the recording sink, formatter and callables are template/streamed arguments of the logger: what they receive is what the library passes",
